@@ -12,7 +12,16 @@ def run(tier, replay=None):
         for schema in (("lib_le",) if tier == "quick" else ("lib_le", "lib_be")):
             vs.append(libcheck.Variant("%s-%s" % (cxx.cell_name(cell), schema), cell,
                                        ["SBEPP_ENABLE_ASSERTS_WITH_HANDLER", "SCHEMA=" + schema]))
-    return lib_run(
+    # constant evaluation (C++20 and later): the table for N = 0..3 inside static_asserts
+    from ..evidence import Report
+    rep = Report("C14", tier, "model_checking")
+    ce_cells = [c for c in ([("g++", "c++20"), ("clang++", "c++20")] if tier == "quick" else [("g++", "c++20"), ("g++", "c++23"), ("clang++", "c++20"), ("clang++", "c++2b")])
+                if not cxx.cell_miscompiles_is_constant_evaluated(c)]
+    cvs = [libcheck.Variant("ce-%s" % cxx.cell_name(c), c, [], compile_sig="constexpr-array-ops:static-assert-or-not-constant") for c in ce_cells]
+    lib_run("C14", tier, "c14ce", "c14_constexpr.cpp", cvs, {}, 1, [], [], replay=replay, rep=rep, finish=False)
+    ce_tr = rep.cov.get("transitions", 0)
+    ce_st = rep.cov.get("states", 0)
+    r = lib_run(
         "C14", tier, "c14", "c14_array.cpp", vs,
         {"N": "0..4 (class template: 0,1,2,3,4; generated accessors: 0,2,3,4)", "content_alphabet": "{NUL,'a','b'}",
          "input_lengths": "0..N", "eos_modes": ["none", "single", "all", "default"],
@@ -23,4 +32,10 @@ def run(tier, replay=None):
         (["cell(s) %s skipped: the toolchain takes `if(<constexpr wrapper of std::is_constant_evaluated()>)` at run time (probe in vlib/cxx.py; clang 14 -std=c++2b if-consteval bug), so strlen() runs its constant-evaluation branch; not a defect of the code under test" % [cxx.cell_name(c) for c in skipped]] if skipped else []) +
         ["strlen() is not instantiated for uint8 arrays: it is ill-formed there (data() is handed to a const char* function); the property speaks of strings",
          "inputs longer than N violate the documented precondition and are not generated"],
-        replay=replay)
+        replay=replay, rep=rep, finish=False)
+    rep.set("constexpr_transitions", ce_tr)
+    rep.set("constexpr_cells", [cxx.cell_name(c) for c in ce_cells])
+    rep.set("transitions", rep.cov.get("transitions", 0) + ce_tr)
+    rep.set("states", rep.cov.get("states", 0) + ce_st)
+    rep.set("traces_validated_against_impl", rep.cov.get("transitions", 0))
+    return rep.finish()
